@@ -29,6 +29,9 @@ def variants_for(inst, rng):
          ('renamed_permutation', {'ids': renamed, 'shuffle': 7}),
          ('renamed_fresh', {'ids': fresh_names}),
          ('scaled', {'scale': rng.choice([0.25, 2.0, 8.0])}),
+         ('split_records', {'split_records': 1 + rng.randint(0, 3)}),
+         ('split_records_shuffled', {'split_records': 1 + rng.randint(0, 3), 'shuffle': 1 + rng.randint(0, 10 ** 6)}),
+         ('eligibility_indexed_by_geo', {'elig_geo_as_index': True}),
          ('scaled_shifted_shuffled', {'scale': rng.choice([0.5, 4.0, 16.0]), 'date_shift': 17, 'shuffle': 99})]
   if inst['ids_kind'] != 'int':
     # string IDs that look like integers in another order
